@@ -633,10 +633,16 @@ func (d *db) apply(op simrt.Op) {
 		if len(d.cl.nodes) != 1 {
 			return
 		}
+		before := schemaText(d.cl.nodes[0].api.Schema(ctx))
 		if err := d.cl.restartSingle(); err != nil {
 			d.c.Fail("restart-error", "%v", err)
 			return
 		}
+		if after := schemaText(d.cl.nodes[0].api.Schema(ctx)); after != before {
+			d.c.Fail("schema-changed", "after %s: the schema differs across a clean restart:\n before: %s\n after:  %s", d.last, before, after)
+			return
+		}
+		d.c.Probe("schema-compared-across-restart")
 		d.last += "+restart"
 	case "recalc":
 		for _, nd := range d.cl.nodes {
@@ -917,4 +923,26 @@ func execDBOpt(o dbOpts) func(c *simrt.Ctx) {
 		c.S.SetEager(true)
 		c.Do("teardown", func() { d.cl.closeAll() })
 	}
+}
+
+// schemaText renders a schema with indexes, fields and views in name order.
+func schemaText(ixs []*pilosa.IndexInfo) string {
+	ixs = append([]*pilosa.IndexInfo(nil), ixs...)
+	sort.Slice(ixs, func(i, j int) bool { return ixs[i].Name < ixs[j].Name })
+	var sb strings.Builder
+	for _, ix := range ixs {
+		fmt.Fprintf(&sb, "index %s %+v {", ix.Name, ix.Options)
+		fs := append([]*pilosa.FieldInfo(nil), ix.Fields...)
+		sort.Slice(fs, func(i, j int) bool { return fs[i].Name < fs[j].Name })
+		for _, f := range fs {
+			var vs []string
+			for _, v := range f.Views {
+				vs = append(vs, v.Name)
+			}
+			sort.Strings(vs)
+			fmt.Fprintf(&sb, " field %s %+v views%v;", f.Name, f.Options, vs)
+		}
+		sb.WriteString(" } ")
+	}
+	return sb.String()
 }
